@@ -1,7 +1,11 @@
 import LaunchpadModel.Lemmas.BaseFull
 import LaunchpadModel.Lemmas.BaseFullPay
+import LaunchpadModel.Lemmas.BaseFullGov2
+import LaunchpadModel.Lemmas.BaseFullTrading
 import LaunchpadModel.Props.C01
 import LaunchpadModel.Props.C02
+import LaunchpadModel.Props.C18
+import LaunchpadModel.Props.C19
 /-!
 # Refinement theorems: the composite base-family model `LP.BF` (Model/BaseFull.lean) refines the aspect models
 
@@ -442,5 +446,301 @@ theorem C02_fullbase_history_minter_never_holds (s : BF.State) (m : BF.Minter) (
     (BF.payRunOps_away s ops m.addr hd haway) d
   rw [← heq] at this
   exact this
+
+/-! ## C18 — governance: the factory's parameters are read LIVE, the price is CAPTURED at creation
+
+Projection `BF.govOf` (params as `Gov.Params.b`, the minter in slot 0 with its captured price and status); translation
+`BF.govOps`; forward simulation with stuttering for every message (Lemmas/BaseFullGov2.lean): `sudo UpdateParams`, `migrate` and
+`sudo UpdateStatus` are simulated functionally (same verdict both ways), an accepted `CreateMinter` / `Mint` /
+`UpdateStartTradingTime` is an accepted aspect op evaluated against the params in force. -/
+
+namespace BF
+
+theorem codes_step' (s : State) (op : Op) : (step' s op).codes = s.codes := by
+  rcases step'_cases s op with ⟨s', hok, hs'⟩ | ⟨_, hs'⟩
+  · rw [hs']; exact (step_frame hok).1
+  · rw [hs']
+
+def govRunOps (s : State) : List Op → List Gov.Op
+  | [] => []
+  | op :: rest => govOps s op ++ govRunOps (step' s op) rest
+
+theorem gov_run_append (e : Gov.Env) (w : Gov.World) (a b : List Gov.Op) :
+    Gov.run e w (a ++ b) = Gov.run e (Gov.run e w a) b := by
+  simp [Gov.run, List.foldl_append]
+
+theorem gov_run (e : Gov.Env) (s : State) (he : EnvAgrees e s.codes) (ops : List Op) :
+    govOf (run s ops) = Gov.run e (govOf s) (govRunOps s ops) := by
+  induction ops generalizing s with
+  | nil => rfl
+  | cons op ops ih =>
+    rw [run_cons, ih (step' s op) (by rw [codes_step']; exact he), gov_sim e s he op]
+    simp only [govRunOps]
+    rw [gov_run_append]
+
+end BF
+
+/-- the C18 simulation: one composite step (ANY message) = the translated aspect ops on the projection -/
+theorem C18_fullbase_refines (e : Gov.Env) (s : BF.State) (he : BF.EnvAgrees e s.codes) (op : BF.Op) :
+    BF.govOf (BF.step' s op) = Gov.run e (BF.govOf s) (BF.govOps s op) :=
+  BF.gov_sim e s he op
+
+theorem C18_fullbase_refines_run (e : Gov.Env) (s : BF.State) (he : BF.EnvAgrees e s.codes) (ops : List BF.Op) :
+    BF.govOf (BF.run s ops) = Gov.run e (BF.govOf s) (BF.govRunOps s ops) :=
+  BF.gov_run e s he ops
+
+/-- over ALL composite histories the factory params are exactly the fold of the governance updates submitted (by `sudo` or
+through `migrate`) — nothing else writes them (`C18_observed_params_history` through the simulation) -/
+theorem C18_fullbase_params_history (e : Gov.Env) (s : BF.State) (he : BF.EnvAgrees e s.codes) (ops : List BF.Op) :
+    BF.govParams (BF.run s ops).params =
+      Gov.runUpd Gov.Params.sudo (BF.govParams s.params) (Gov.updatesOf (BF.govRunOps s ops)) := by
+  have h := C18_observed_params_history e (BF.govRunOps s ops) (BF.govOf s)
+  rw [← BF.gov_run e s he ops] at h
+  exact h
+
+/-- frame conditions of an ACCEPTED update: every field is the supplied value, else the old one; the allow-list is
+"old ∪ added, minus removed" as a set; the extension bit is never touched -/
+theorem C18_fullbase_params_frame (s s' : BF.State) (u : BF.ParamsUpdate) (h : BF.step s (.sudoParams u) = .ok s') :
+    s'.params.codeId = u.codeId.getD s.params.codeId ∧
+    s'.params.frozen = u.frozen.getD s.params.frozen ∧
+    s'.params.creationFee = u.creationFee.getD s.params.creationFee ∧
+    s'.params.minMintPrice = u.minMintPrice.getD s.params.minMintPrice ∧
+    s'.params.mintFeeBps = u.mintFeeBps.getD s.params.mintFeeBps ∧
+    s'.params.maxTradingOffsetSecs = u.maxTradingOffsetSecs.getD s.params.maxTradingOffsetSecs ∧
+    s'.params.ext = s.params.ext ∧
+    (∀ x, x ∈ s'.params.allowed ↔ (x ∈ s.params.allowed ∨ x ∈ u.addCodes.getD []) ∧ x ∉ u.rmCodes.getD []) ∧
+    s'.minter = s.minter ∧ s'.bank = s.bank ∧ s'.now = s.now := by
+  simp only [BF.step] at h
+  obtain ⟨p, hp, rfl⟩ := BF.sudoParams_ok h
+  have hs := BF.sudo_eq s.params u
+  rw [hp] at hs
+  have hb : Gov.sudoBase
+      { codeId := s.params.codeId, allowed := s.params.allowed, frozen := s.params.frozen,
+        creationFee := s.params.creationFee, minMintPrice := s.params.minMintPrice, mintFeeBps := s.params.mintFeeBps,
+        maxTradingOffsetSecs := s.params.maxTradingOffsetSecs, ext := s.params.ext } (BF.govUpd u).toBase =
+      .ok { codeId := p.codeId, allowed := p.allowed, frozen := p.frozen, creationFee := p.creationFee,
+            minMintPrice := p.minMintPrice, mintFeeBps := p.mintFeeBps, maxTradingOffsetSecs := p.maxTradingOffsetSecs,
+            ext := p.ext } := by
+    simp only [BF.govParams, Gov.Params.sudo, Except.map] at hs
+    cases hx : Gov.sudoBase _ (BF.govUpd u).toBase with
+    | error e => rw [hx] at hs; cases hs
+    | ok q => rw [hx] at hs; simp only [Except.ok.injEq, Gov.Params.b.injEq] at hs; rw [hs]
+  obtain ⟨h1, h2, h3, h4, h5, h6, h7, h8⟩ := C18_params_frame_base _ _ _ hb
+  exact ⟨h1, h2, h3, h4, h5, h6, h7, h8, rfl, rfl, rfl⟩
+
+/-- "an update that would move the minimum mint price to a non-native denom is refused", by `sudo` and through `migrate`,
+whatever else the message contains — and nothing at all is saved -/
+theorem C18_fullbase_nonnative_refused (s : BF.State) (u : BF.ParamsUpdate) (c : Coin) (hu : u.minMintPrice = some c)
+    (hc : c.denom ≠ NATIVE) (a : Addr) :
+    BF.step' s (.sudoParams u) = s ∧ BF.step' s (.migrate a (some u)) = s := by
+  have hup : ∃ e, BF.updateParams s.params u = .error e := by
+    unfold BF.updateParams VF.nativeOr
+    simp [hu, hc]
+  obtain ⟨e, he⟩ := hup
+  constructor
+  · simp [BF.step', BF.step, BF.sudoParams, he]
+  · unfold BF.step'
+    simp only [BF.step, BF.migrate, BF.sudoParams, he]
+    split
+    · rename_i s' heq; split at heq <;> cases heq
+    · rfl
+
+/-- `migrate(Some(msg))` by the wasm admin is the same function of the state as `sudo UpdateParams(msg)`; `migrate(None)`
+changes nothing; anybody else is refused -/
+theorem C18_fullbase_migrate_same_as_sudo (s : BF.State) (a : Addr) (u : BF.ParamsUpdate) :
+    (s.factoryAdmin = some a → BF.step s (.migrate a (some u)) = BF.step s (.sudoParams u) ∧
+      BF.step s (.migrate a none) = .ok s) ∧
+    (s.factoryAdmin ≠ some a → ∀ ou, BF.step' s (.migrate a ou) = s) := by
+  constructor
+  · intro h; simp [BF.step, BF.migrate, h]
+  · intro h ou; simp [BF.step', BF.step, BF.migrate, h]
+
+/-- CAPTURED: the price of a minter is the factory's `min_mint_price` of the moment of its creation and stays so after ANY
+later history — updates of the minimum price included -/
+theorem C18_fullbase_price_captured (s s1 : BF.State) (sender : Addr) (funds : List Coin) (msg : BF.CreateMsg)
+    (w : BF.CreateWit) (h : BF.step s (.create sender funds msg w) = .ok s1) (ops : List BF.Op) :
+    ∃ m', (BF.run s1 ops).minter = some m' ∧ m'.mintPrice = s.params.minMintPrice := by
+  simp only [BF.step] at h
+  obtain ⟨b1, ms, b2, m, _, _, _, _, _, hinst, rfl⟩ := BF.createMinter_ok h
+  obtain ⟨m', hm', hid⟩ := BF.minter_frame_run { s with bank := b2, minter := some m } m rfl ops
+  obtain ⟨creator, v, _, _, _, hmeq⟩ := BF.instantiateMinter_ok hinst
+  refine ⟨m', hm', ?_⟩
+  rw [hid.2.2.2.2.1, hmeq]
+
+/-- LIVE: an accepted mint pays the captured price times the `mint_fee_bps` in force NOW — i.e. after every governance update
+so far (`C18_fullbase_params_history` says which value that is) -/
+theorem C18_fullbase_mint_observes_live_fee (s s' : BF.State) (m : BF.Minter) (hm : s.minter = some m)
+    (sender : Addr) (funds : List Coin) (uri : Nat) (uriOk : Bool) (h : BF.step s (.mint sender funds uri uriOk) = .ok s') :
+    mustPay funds NATIVE = .ok (m.mintPrice.amount * s.params.mintFeeBps / 10000) := by
+  simp only [BF.step] at h
+  obtain ⟨m0, hm0, hmint⟩ := BF.withMinterS_ok h
+  rw [hm] at hm0; cases hm0
+  obtain ⟨_, ms, _, _, _, _, _, hms, _⟩ := BF.mint_ok hmint
+  obtain ⟨hpay, _⟩ := BF.mintMsgs_ok hms
+  rw [hpay]
+  unfold BF.networkFee
+  rw [MintPay.mulFloor_bps]
+
+/-- `sudo UpdateStatus`: the three flags become the supplied ones, nothing else changes; it only fails while no minter exists -/
+theorem C18_fullbase_status (s : BF.State) (m : BF.Minter) (hm : s.minter = some m) (v b x : Bool) :
+    BF.step s (.sudoStatus v b x) = .ok { s with minter := some { m with status := ⟨v, b, x⟩ } } := by
+  simp [BF.step, BF.withMinter, hm]
+
+/-! ## C19 — trading start time (family `base`: default = creation time + offset, no upper bound, never in the past)
+
+Projection `BF.ttOf`, translation `BF.ttOps`, FUNCTIONAL simulation for every message (Lemmas/BaseFullTrading.lean). -/
+
+namespace BF
+
+def ttRunOps (s : State) : List Op → List TT.Op
+  | [] => []
+  | op :: rest => ttOps s op ++ ttRunOps (step' s op) rest
+
+theorem tt_run_append (w : TT.World) (a b : List TT.Op) : TT.run w (a ++ b) = TT.run (TT.run w a) b := by
+  simp [TT.run, List.foldl_append]
+
+theorem tt_run (s : State) (m : Minter) (hm : s.minter = some m) (ops : List Op) :
+    ∃ m', (run s ops).minter = some m' ∧ ttOf (run s ops) m' = TT.run (ttOf s m) (ttRunOps s ops) := by
+  induction ops generalizing s m with
+  | nil => exact ⟨m, hm, rfl⟩
+  | cons op ops ih =>
+    obtain ⟨m1, hm1, heq⟩ := tt_sim s m hm op
+    obtain ⟨m', hm', hrun⟩ := ih (step' s op) m1 hm1
+    refine ⟨m', by rw [run_cons]; exact hm', ?_⟩
+    rw [run_cons, hrun, heq]
+    simp only [ttRunOps]
+    rw [tt_run_append]
+
+/-- an accepted / refused `UpdateStartTradingTime` as the aspect model's step -/
+theorem tt_upd_step (s : State) (m : Minter) (sender : Addr) (funds : List Coin) (t : Option Nat) :
+    TT.step (ttOf s m) (.updTrading sender t funds.length) =
+      (updateStartTradingTime s m sender funds t).map (fun m' => ttOf s m') := by
+  simp only [TT.step]; exact tt_updTrading s m sender funds t
+
+end BF
+
+/-- the C19 simulation: one composite step (ANY message) = the translated aspect ops on the projection -/
+theorem C19_fullbase_refines (s : BF.State) (m : BF.Minter) (hm : s.minter = some m) (op : BF.Op) :
+    ∃ m', (BF.step' s op).minter = some m' ∧
+      BF.ttOf (BF.step' s op) m' = TT.run (BF.ttOf s m) (BF.ttOps s op) :=
+  BF.tt_sim s m hm op
+
+theorem C19_fullbase_refines_run (s : BF.State) (m : BF.Minter) (hm : s.minter = some m) (ops : List BF.Op) :
+    ∃ m', (BF.run s ops).minter = some m' ∧
+      BF.ttOf (BF.run s ops) m' = TT.run (BF.ttOf s m) (BF.ttRunOps s ops) :=
+  BF.tt_run s m hm ops
+
+/-- creation: "(creation time plus the offset for the base minter)"; an explicit request is stored as given — whatever it is;
+the collection is owned by the new minter, its creator is the one named in the request -/
+theorem C19_fullbase_create_default (s s' : BF.State) (sender : Addr) (funds : List Coin) (msg : BF.CreateMsg)
+    (w : BF.CreateWit) (h : BF.step s (.create sender funds msg w) = .ok s') :
+    ∃ m creator t, s'.minter = some m ∧ msg.creator = some creator ∧ m.tt.trading = some t ∧
+      (msg.trading = none → t = s.now + s.params.maxTradingOffsetSecs * 1000000000) ∧
+      (∀ x, msg.trading = some x → t = x) ∧
+      m.tt.owner = some w.minterAddr ∧ m.tt.pending = none ∧ m.tt.creator = creator := by
+  simp only [BF.step] at h
+  obtain ⟨m, creator, hm, hcr, hstep⟩ := BF.tt_create h
+  obtain ⟨m0, c, t, hmc, ht, h1, h2, h3, h4, h5⟩ :=
+    C19_create_default_base _ _ m.v.coll creator 0 none msg.trading rfl hstep
+  simp only [BF.ttOf, Option.some.injEq, Prod.mk.injEq] at hmc
+  obtain ⟨_, rfl⟩ := hmc
+  exact ⟨m, creator, t, hm, hcr, ht, h1, h2, h3, h4, h5⟩
+
+/-- update: exact characterisation of acceptance — no funds, the sender is the collection's CURRENT creator, a requested value is
+not in the past (no upper bound in this family), the collection has the message (not sg721-nt) and is still owned by the minter -/
+theorem C19_fullbase_update_iff (s : BF.State) (m : BF.Minter) (hm : s.minter = some m) (sender : Addr)
+    (funds : List Coin) (t : Option Nat) :
+    (∃ s', BF.step s (.updateStartTradingTime sender funds t) = .ok s') ↔
+      funds = [] ∧ sender = m.tt.creator ∧ (∀ x, t = some x → s.now ≤ x) ∧
+      m.tt.kind.hasTradingMsg = true ∧ m.tt.owner = some m.addr := by
+  have hiff := C19_update_iff (BF.ttOf s m) (BF.ttMinter m) m.tt rfl sender funds.length t
+  rw [BF.tt_upd_step] at hiff
+  have hl : (∃ s', BF.step s (.updateStartTradingTime sender funds t) = .ok s') ↔
+      (∃ w', (BF.updateStartTradingTime s m sender funds t).map (fun m' => BF.ttOf s m') = .ok w') := by
+    simp only [BF.step, BF.withMinter, hm]
+    cases BF.updateStartTradingTime s m sender funds t <;> simp [Except.map]
+  rw [hl, hiff]
+  constructor
+  · rintro ⟨h1, h2, h3, h4, h5⟩
+    exact ⟨List.eq_nil_of_length_eq_zero h1, by simpa [TT.adminOf, BF.ttOf] using h2, fun x hx => (h3 x hx).1, h4, h5⟩
+  · rintro ⟨h1, h2, h3, h4, h5⟩
+    exact ⟨by rw [h1]; rfl, by simpa [TT.adminOf, BF.ttOf] using h2, fun x hx => ⟨h3 x hx, fun hf => absurd rfl hf⟩, h4, h5⟩
+
+/-- "no minter (the base minter included) accepts an update that sets it earlier than the current time"; the accepted value
+becomes the visible one -/
+theorem C19_fullbase_update_bound (s s' : BF.State) (m : BF.Minter) (hm : s.minter = some m) (sender : Addr)
+    (funds : List Coin) (t : Nat) (h : BF.step s (.updateStartTradingTime sender funds (some t)) = .ok s') :
+    s.now ≤ t ∧ sender = m.tt.creator ∧ ∃ m', s'.minter = some m' ∧ m'.tt.trading = some t := by
+  obtain ⟨_, h2, h3, _, _⟩ := (C19_fullbase_update_iff s m hm sender funds (some t)).1 ⟨s', h⟩
+  refine ⟨h3 t rfl, h2, ?_⟩
+  simp only [BF.step] at h
+  obtain ⟨m0, m', hm0, hf, rfl⟩ := BF.withMinter_ok h
+  rw [hm] at hm0; cases hm0
+  obtain ⟨c, _, _, _, hc, rfl⟩ := BF.updateStartTradingTime_ok hf
+  refine ⟨_, rfl, ?_⟩
+  simp only [TT.Coll.updateTrading] at hc
+  repeat' split at hc
+  all_goals first | (cases hc; done) | (cases hc; rfl)
+
+/-- authorisation: the collection accepts a trading-time change only from its minter (the cw_ownable owner) -/
+theorem C19_fullbase_auth_collection (s s' : BF.State) (m : BF.Minter) (hm : s.minter = some m) (sender : Addr)
+    (t : Option Nat) (h : BF.step s (.collTrading sender t) = .ok s') : m.tt.owner = some sender := by
+  simp only [BF.step] at h
+  obtain ⟨m0, c, hm0, hc, _⟩ := BF.onColl_ok h
+  rw [hm] at hm0; cases hm0
+  simp only [TT.Coll.updateTrading] at hc
+  split at hc
+  · cases hc
+  · split at hc
+    · rename_i ho; exact ho
+    · cases hc
+
+/-- "the value visible in the collection info is always one the minter validated", for ALL composite histories from a state
+whose collection is owned by the minter with no transfer pending (as right after `CreateMinter`), as long as the messages sent
+straight to the collection come from anybody but the minter contract's own address: the visible value is the one stored by the
+most recent validated write (`UpdateStartTradingTime` accepted by the minter), else the one visible at the start -/
+theorem C19_fullbase_validated_history (s : BF.State) (m : BF.Minter) (hm : s.minter = some m)
+    (hown : m.tt.owner = some m.addr ∧ m.tt.pending = none) (ops : List BF.Op)
+    (hext : ∀ op ∈ BF.ttRunOps s ops, op.External m.addr) :
+    ∃ m', (BF.run s ops).minter = some m' ∧
+      some m'.tt.trading =
+        ((TT.validatedHistory (BF.ttOf s m) (BF.ttRunOps s ops)).getLast?).getD (some m.tt.trading) := by
+  obtain ⟨m', hm', heq⟩ := BF.tt_run s m hm ops
+  have hinv : TT.OwnerInv (BF.ttOf s m) := by
+    intro m0 c hmc
+    simp only [BF.ttOf, Option.some.injEq, Prod.mk.injEq] at hmc
+    obtain ⟨_, rfl⟩ := hmc
+    exact hown
+  have := C19_validated_history (BF.ttOf s m) (BF.ttRunOps s ops) hinv hext
+  rw [← heq] at this
+  exact ⟨m', hm', this⟩
+
+/-! ## Non-vacuity: a kernel-evaluated composite history in which the hypotheses of the theorems above hold
+
+`BF.exOps` (Lemmas/BaseFull.lean): a payer who is not the creator, an over-paid creation fee, a governance change between creation
+and mint, an accepted and two refused mints, a refused trading-time update on sg721-nt, a holder burn. -/
+
+example : BF.exInit.minter = none := rfl
+example : ((BF.run BF.exInit (BF.exOps.take 3)).minter).isSome = true := by decide
+/-- index 1 after three mint attempts, wasm admin = payer, collection admin = creator, price still the captured one -/
+example : ((BF.run BF.exInit BF.exOps).minter.map fun m => (m.seq.tokenIndex, m.wasmAdmin, m.collAdmin, m.mintPrice.amount)) =
+    some (1, 11, 10, 50000000) := by decide
+/-- the over-payment stays with the factory, the minter holds nothing, the creator paid exactly captured price × live rate -/
+example : ((BF.run BF.exInit BF.exOps).bank.bal 1000 0, (BF.run BF.exInit BF.exOps).bank.bal 1001 0,
+    (BF.run BF.exInit BF.exOps).bank.bal 10 0) = (777, 0, 990000000) := by decide
+/-- the burnt token is gone, the index is not reused, the trading time was never touched (sg721-nt has no such message) -/
+example : ((BF.run BF.exInit BF.exOps).minter.map fun m => (m.seq.coll.toks, m.seq.coll.count, m.tt.trading)) =
+    some ([], 0, some (5000 + 604800 * 1000000000)) := by decide
+/-- the code tables of the example satisfy `EnvAgrees` for the harness' table of the eleven minter codes -/
+example : BF.EnvAgrees ⟨[1, 2, 3, 4, 5, 6, 7, 8, 9, 10, 11], [16, 17, 18, 19]⟩ BF.exInit.codes := by
+  constructor
+  · intro code h
+    have : code = 11 := by simpa [BF.exInit, BF.init] using h
+    subst this; decide
+  · intro code h
+    rw [BF.variantOf_std BF.exInit.codes rfl code] at h
+    simp only [Bool.and_eq_true, decide_eq_true_eq] at h
+    have hc : code = 16 ∨ code = 17 ∨ code = 18 ∨ code = 19 := by omega
+    rcases hc with rfl | rfl | rfl | rfl <;> decide
 
 end LP
